@@ -42,6 +42,8 @@ def run(ctx, repo):
                    'no assignment moves the state backwards')
     ctx.rule('R5', 'guard order: check_started, jumper operation, log append, _rank; Jumper methods guard before storing')
     ctx.rule('R6', 'flags written by the trial methods are read by the guard; attempt limits are 3 / 1')
+    ctx.rule('R7', 'state decisions do not read the index of the best as if it were the latest clearance (it does not move on a clearance at or '
+                   'below the best, C03.R5); outside the countback it is only tested against 0 / -1')
 
     # ---------------- R1 / R2
     A = EBR(mod.tree)
@@ -364,6 +366,10 @@ def run(ctx, repo):
         ctx.finding('R6', '%s::%s.set_bar_height::clears dismissed' % (HJ, COMP), HJ, sbh.lineno,
                     'raising the bar no longer re-admits the athletes who are done at the previous height')
 
+    # ---- R7 shared with C03: reads of the index of the best
+    from .c03 import best_index_beliefs, methods_of as _mo
+    _mod = repo.module('athlib/highjump.py')
+    best_index_beliefs(ctx, _mod, _mo(_mod.cls('Jumper')), 'R7')
 
 def enclosing_fn(n):
     p = getattr(n, '_parent', None)
